@@ -179,6 +179,15 @@ func randWord(r *Rand, lo, hi int) string {
 	return string(b)
 }
 
+func isLowerAlpha(s string) bool {
+	for i := 0; i < len(s); i++ {
+		if s[i] < 'a' || s[i] > 'z' {
+			return false
+		}
+	}
+	return true
+}
+
 func ptr[T any](v T) *T { return &v }
 
 func likePattern(r *Rand, s string, match bool) string {
@@ -282,7 +291,7 @@ func genStmt(r *Rand, a []KV, want bool, depth int, top bool) Stmt {
 		return Pick(r, []Stmt{{Op: "==", Sel: sel, Val: ptr(vFloat(f + 1))}, {Op: ">", Sel: sel, Val: ptr(vFloat(f))}, {Op: "<=", Sel: sel, Val: ptr(vFloat(f - 0.25))},
 			{Op: "==", Sel: sel, Val: ptr(vInt(int64(f)))}})
 	case "str":
-		if r.Chance(0.5) {
+		if r.Chance(0.5) && isLowerAlpha(v.S) {
 			return Stmt{Op: "like", Sel: sel, Pat: likePattern(r, v.S, want)}
 		}
 		if want {
